@@ -28,6 +28,7 @@ def opsOf (s : String) : List WOp :=
 
 def finishOf (s : String) : Finish :=
   match splitS ':' s with
+  | "respondfail" :: n :: rest => .respondFail (respOf rest) (toNatD n)
   | "respond" :: rest => .respond (respOf rest)
   | "writer" :: ops :: _ => .writer (opsOf ops)
   | ["writer"] => .writer []
@@ -38,9 +39,10 @@ def numAfter (s : String) (k : Nat) : Nat := toNatD (String.ofList (s.toList.dro
 
 def actionOf (s : String) : Action :=
   match splitS ',' s with
-  | ar :: rd :: bs :: _dl :: fin =>
-    ⟨numAfter ar 2, numAfter rd 2, numAfter bs 2, finishOf (",".intercalate fin)⟩
-  | _ => ⟨0, 0, 1, .drop⟩
+  | ar :: rd :: bs :: _dl :: zr :: fin =>
+    { asReaderCalls := numAfter ar 2, readTotal := numAfter rd 2, bufSize := numAfter bs 2,
+      fin := finishOf (",".intercalate fin), zeroRead := numAfter zr 2 == 1 }
+  | _ => ⟨0, 0, 1, .drop, false⟩
 
 def scriptOf (s : String) : Script :=
   let acts := (listS '|' s).map actionOf
@@ -48,7 +50,7 @@ def scriptOf (s : String) : Script :=
     | some a => a
     | none => match acts.getLast? with
       | some a => a
-      | none => ⟨0, 0, 1, .drop⟩
+      | none => ⟨0, 0, 1, .drop, false⟩
 
 def b1 (s : String) : Bool := s == "1"
 
@@ -109,6 +111,18 @@ def run (kv : KV) : String :=
     (if t.ending == .closed then wire == t.out
      else isPrefix (t.out.take t.flushed) wire && isPrefix wire t.out)
   let aEof := big || !wireObservable || eof == (t.ending == .closed)
+  -- two-phase client: what had arrived when the client stopped to wait must be what the model
+  -- says is on the wire after the first phase alone (stream still open)
+  let holdN := toNat? (get kv "hold")
+  let holdWire := unhex (get kv "holdwire")
+  let aHold := match holdN with
+    | some n =>
+      if !has kv "holdwire" || big then true
+      else
+        let tp := Conn.run (bytes.take n) .open script
+        tp.unmodelled || (isPrefix (tp.out.take tp.flushed) holdWire && isPrefix holdWire tp.out)
+    | none => true
+  let holdOk := get kv "i_holdneed" != "1" || !holdWire.isEmpty
   -- read-ahead: how many requests become available while none is answered
   -- (with `streamed_first=1` the application reads the first, streamed body to its end on arrival)
   let aheadCount : Nat :=
@@ -136,19 +150,21 @@ def run (kv : KV) : String :=
   let extra := ",same:" ++ b01 (flag "same") ++ ",prefix:" ++ b01 (flag "prefix") ++ ",fresh:" ++ b01 (!has kv "fresh" || get kv "fresh" != "0")
     ++ ",nopanic:" ++ b01 (!has kv "panicked" || get kv "panicked" == "0") ++ ",ahead:" ++ b01 aheadOk
     ++ ",noabort:" ++ b01 ((!has kv "aborted" || get kv "aborted" == "0") && (!has kv "abort" || get kv "abort" == "0"))
+    ++ ",hold:" ++ b01 holdOk
     ++ ",alloc:" ++ b01 (!has kv "maxalloc" || decide (toNatD (get kv "maxalloc") ≤ 262144 + 16 * toNatD (get kv "sent") + 8 * wire.length))
   let sub := "heads:" ++ b01 v.heads ++ ",bodies:" ++ b01 v.bodies ++ ",seq:" ++ b01 v.seq ++ ",wire:" ++ b01 v.wire
     ++ ",eof:" ++ b01 v.eof ++ ",addr:" ++ b01 v.addr ++ ",nohang:" ++ b01 (!hang) ++ ",results:" ++ b01 okResults
     ++ ",dates:" ++ b01 (get kv "dates" == "ok") ++ extra
   let agr := "heads:" ++ b01 aHeads ++ ",bodies:" ++ b01 aBodies ++ ",seq:" ++ b01 aSeq ++ ",wire:" ++ b01 aWire
-    ++ ",eof:" ++ b01 aEof ++ ",ahead:" ++ b01 aAhead
+    ++ ",eof:" ++ b01 aEof ++ ",ahead:" ++ b01 aAhead ++ ",hold:" ++ b01 aHold
   let classes := (reqs.map (·.cls)).eraseDups
   let kinds := t.delivered.map (fun d => match (framingOf d.headers) with
     | .ok fr => (match fr.kind with
         | .upgrade => "upgrade" | .empty => "empty" | .buffered _ => "buffered" | .limited _ => "limited" | .chunked => "chunked")
     | .error _ => "err")
   let fins := (List.range t.delivered.length).map (fun i => match (script i).fin with
-    | .respond _ => "respond" | .drop => "drop" | .writer _ => "writer" | .upgrade .. => "upgrade")
+    | .respond _ => "respond" | .drop => "drop" | .writer ops => (if ops.isEmpty then "writer0" else "writer") | .upgrade .. => "upgrade"
+    | .respondFail .. => "respondfail")
   let consumed := (List.range t.delivered.length).map (fun i =>
     let a := script i
     if a.asReaderCalls == 0 || a.readTotal == 0 then "none" else
@@ -161,6 +177,9 @@ def run (kv : KV) : String :=
       ++ (if has kv "i_fam" then ["fam:" ++ get kv "i_fam"] else [])
       ++ (if has kv "i_tag" then ["tag:" ++ String.ofList ((get kv "i_tag").toList.filter (fun c => !c.isDigit))] else [])
       ++ (if has kv "werr" then ["werr:1"] else [])
+      ++ (if get kv "i_holdneed" == "1" then ["holdneed:1"] else [])
+      ++ (if (List.range t.delivered.length).any (fun i => (script i).zeroRead) then ["zeroread:1"] else [])
+      ++ (if bytes.length > 300000 then ["size:huge"] else [])
       ++ (if t.delivered.any (fun d => (d.readEnd == .err || d.readEnd == .pending) &&
               (match framingOf d.headers with | .ok fr => fr.kind == .chunked | .error _ => false))
           then ["lossy:1"] else [])
@@ -170,7 +189,7 @@ def run (kv : KV) : String :=
           "n:" ++ toString (min t.delivered.length 5), "unix:" ++ b01 unix,
           "hold:" ++ b01 (get kv "hold" != "none"), "segs:" ++ b01 (get kv "segs" != "none")]
       ++ (t.statuses.eraseDups.map (fun s => "st:" ++ toString s))
-  let allAgree := aHeads && aBodies && aSeq && aWire && aEof && aAhead
+  let allAgree := aHeads && aBodies && aSeq && aWire && aEof && aAhead && aHold
   let diff :=
     if allAgree then "-"
     else if !aSeq || !aHeads then "delivered model=" ++ "|".intercalate (mobs.map (fun o => hex o.method ++ "," ++ hex o.url ++ "," ++ toString o.version.major ++ "." ++ toString o.version.minor ++ "," ++ showOptNat o.bodyLength))
